@@ -67,13 +67,9 @@ func enumSpecs(tier string) []*spec {
 			}, int(x509.SHA256WithRSAPSS)),
 		enumSpec("x509.PublicKeyAlgorithm", "statement", -1, 40, func(i int) x509.PublicKeyAlgorithm { return x509.PublicKeyAlgorithm(i) },
 			outside(0, int(x509.X25519), "undefined code point: not a declared PublicKeyAlgorithm constant (String() maps it to unknown_algorithm)"), int(x509.ECDSA)),
-		enumSpec("crl.RevocationReasonCode", "design", -1, 16, func(i int) crl.RevocationReasonCode { return crl.RevocationReasonCode(i) },
-			func(i int) string {
-				if i < 0 || i > 10 || i == 7 {
-					return "undefined code point: not an RFC 5280 CRLReason"
-				}
-				return ""
-			}, 1),
+		// no out-of-domain class: the CRL / OCSP parsers store whatever ENUMERATED value the wire carries
+		// (7, 11.., negative), so every integer is a value a parser can produce and must round-trip
+		enumSpec("crl.RevocationReasonCode", "design", -1, 16, func(i int) crl.RevocationReasonCode { return crl.RevocationReasonCode(i) }, nil, 1),
 		enumSpec("x509.CertificateType", "adjacent", -1, 8, func(i int) x509.CertificateType { return x509.CertificateType(i) },
 			outside(0, 3, "undefined code point: documented — any unknown integer value is considered the same as CertificateTypeUnknown"), 1),
 		enumSpec("ct.Version", "design", 0, 0xff, func(i int) zct.Version { return zct.Version(i) }, nil, 0),
